@@ -67,6 +67,12 @@ def nonlinear_models(tier):
             }
             for name, core in cores.items():
                 out.append(spec(name, [A, B, C], x0, core + sink()))
+            # single-letter names that sympy knows as constants / functions (E, S, O, Q, N, I, C), the parameters declared after
+            # the reactions (the constructor's order): Michaelis-Menten with enzyme amount E
+            if x0 is not None and x0.get(A, 0) == 4.5:
+                out.append(spec('clash_names', ['S', 'Q', 'N'], {'S': 4.5, 'Q': 1.0, 'N': 0.0},
+                                [gen(['S'], ['Q'], ('/', ('*', ('*', ID('I'), ID('E')), ID('S')), ('+', ID('O'), ID('S')))), ma(['Q'], ['N'], 'C'), ma(['N'], [], 0.5),
+                                 ma(['S'], [], 0.4)], params={'I': k, 'E': 2.0, 'O': 1.5, 'C': 0.7}))
     return out
 
 
@@ -103,11 +109,17 @@ def reference(sp, times):
 
 def check(c, item):
     from bioscrape.simulator import py_simulate_model, DeterministicSimulator, ModelCSimInterface
-    sp, gname = item
+    sp, gname = item[0], item[1]
+    via_edits = len(item) > 2 and item[2] == 'edited'
     times = np.array(GRIDS[gname])
     c.count('states')
-    case = dict(spec=sp, grid=gname)
-    m = to_model(sp)
+    case = dict(spec=sp, grid=gname, edited=via_edits)
+    if via_edits:
+        from .. import e1
+        m = e1.Impl(sp, False, edited=True).model      # the same definition reached through edits, rejected calls in between
+        m.set_species({s_: float(v_) for s_, v_ in sp['x0'].items()})
+    else:
+        m = to_model(sp)
     order = m.get_species_list()
     perm = [order.index(s) for s in sp['species']]
     ref = reference(sp, times)
@@ -128,7 +140,7 @@ def check(c, item):
     outs['py_simulate_model/kept-interface'] = np.asarray(res5.py_get_result())[:, perm]
     for route, out in outs.items():
         c.count('evaluations'); c.count('traces'); c.count('transitions', len(times))
-        key = 'C04/%s/%s/' % (sp['name'], route)
+        key = 'C04/%s%s/%s/' % (sp['name'], '-edited' if via_edits else '', route)
         if out.shape != ref.shape:
             c.violation(key + 'shape', 'result shape %s for %d time points' % (out.shape, len(times)), case)
             continue
@@ -146,7 +158,7 @@ def check(c, item):
 
 
 def sweep(c, item):
-    """one Model and one kept interface, re-parameterised with Model.set_params between runs: every run solves the equations
+    """one Model and one kept interface, re-parameterised with Model.set_params and restarted with Model.set_species between runs: every run solves the equations
     of the current parameter values (closed form of X' = a(1 + e^{-t}/2) - bX, Y' = bX - cY by DOP853 on the reference)"""
     from bioscrape.simulator import py_simulate_model, DeterministicSimulator, ModelCSimInterface
     from bioscrape.types import Model
@@ -163,9 +175,12 @@ def sweep(c, item):
     perm = [order.index(s_) for s_ in (Xs, Ys)]
     iface = ModelCSimInterface(m)
     iface.py_prep_deterministic_simulation()
+    starts = [{Xs: 1.0, Ys: 0.5}, {Xs: 4.0, Ys: 0.0}, {Xs: 0.0, Ys: 2.5}, {Xs: 1.0, Ys: 0.5}]
     for k, ps in enumerate(sets):
         m.set_params(dict(a=ps[0], b=ps[1], cc=ps[2]))
-        ref = reference(sp0(*ps), times)
+        m.set_species(dict(starts[k]))            # the kept interface follows the Model's initial condition as well
+        spk = sp0(*ps); spk['x0'] = dict(starts[k])
+        ref = reference(spk, times)
         if via == 'interface':
             out = np.asarray(DeterministicSimulator().py_simulate(iface, times).py_get_result())[:, perm]
         elif via == 'entry-interface':
@@ -255,6 +270,7 @@ def run(ctx):
     grids = ['u025', 'geo', 'two'] if ctx.quick else list(GRIDS)
     items = [(sp, g) for i, sp in enumerate(models) for gi, g in enumerate(grids)
              if sp['name'] != 'affine' or ctx.tier == 'thorough' or (i + gi) % 3 == 0 or gi == 0]
+    items += [(sp, 'geo', 'edited') for i, sp in enumerate(models) if sp['name'] != 'affine' or i % 7 == 0]
     pmap(check, items, ctx, nshards=256)
     ctx.exhaustive = True
     ctx.bounds = dict(models=len(models), grids=grids, runs=len(items), tolerance='1e-5*(1+|x|)', effort_cases=eff, tolerance_cases=len(tl))
@@ -276,4 +292,4 @@ def replay(ctx, case):
         return tolerances(ctx, (case['atol'], case['rtol'], case['scale'], case['how']))
     if case['spec'].get('name') == 'sweep':
         return sweep(ctx, (case['grid'], case['via']))
-    check(ctx, (case['spec'], case['grid']))
+    check(ctx, (case['spec'], case['grid']) + (('edited',) if case.get('edited') else ()))
